@@ -146,9 +146,60 @@ def wrapper_table_case(ctx, prop):
                     inp, {"estimator_chain": chain_e, "sampler_chain": chain_s}, key="solver-level:wrapper-table")
 
 
+def install_views_case(ctx, prop, rng):
+    """the chain of wrappers each of 1-3 solvers constructed on ONE configured estimator evaluates through (wrapper kinds, identity of the
+    runner objects in order of creation) against Install.views"""
+    from queasars.circuit_evaluation.configured_primitives import ConfiguredEstimatorV2
+    from queasars.circuit_evaluation.mutex_primitives import BatchingMutexEstimator, MutexEstimator
+    from queasars.circuit_evaluation.transpiling_primitives import TranspilingEstimatorV2
+
+    warnings.filterwarnings("ignore")
+    drv = ctx.lean("Install")
+    n = rng.randint(1, 3)
+    flags = [rng.random() < 0.75 for _ in range(n)]
+    shared = ConfiguredEstimatorV2(estimator=fakes.ExactEstimator(), precision=None)
+    views = []
+    order = {}
+    with ThreadPoolExecutor(max_workers=1) as ex:
+        from qiskit_algorithms.optimizers import COBYLA
+
+        from queasars.circuit_evaluation.configured_primitives import ConfiguredSamplerV2
+        from queasars.minimum_eigensolvers.evqe.evqe import EVQEMinimumEigensolver, EVQEMinimumEigensolverConfiguration
+
+        for k in range(n):
+            conf = EVQEMinimumEigensolverConfiguration(
+                configured_estimator=shared, configured_sampler=ConfiguredSamplerV2(sampler=fakes.ExactSampler(), shots=64), pass_manager=None, optimizer=COBYLA(maxiter=2),
+                optimizer_n_circuit_evaluations=None, max_generations=1, max_circuit_evaluations=None, termination_criterion=None, random_seed=k + 1, population_size=2,
+                speciation_genetic_distance_threshold=2, selection_alpha_penalty=0.0, selection_beta_penalty=0.0, parameter_search_probability=0.5,
+                topological_search_probability=0.5, layer_removal_probability=0.1, parallel_executor=ex, mutually_exclusive_primitives=flags[k])
+            solver = EVQEMinimumEigensolver(conf)
+            chain, p = [], solver.configuration.configured_estimator.estimator
+            while True:
+                if isinstance(p, TranspilingEstimatorV2):
+                    chain.append("T")
+                    p = p._estimator
+                elif isinstance(p, BatchingMutexEstimator):
+                    runner = getattr(p, "_runner", None) or getattr(p, "_job_runner", None) or next(v for v in vars(p).values() if type(v).__name__ == "BatchingMutexPrimitiveJobRunner")
+                    chain.append(["B", order.setdefault(id(runner), k)])
+                    p = p._estimator
+                elif isinstance(p, MutexEstimator):
+                    chain.append(["M", order.setdefault(id(getattr(p, "_lock", p)), k)])
+                    p = p._estimator
+                else:
+                    break
+            views.append(chain)
+    inp = {"solver_level": "install-views", "mutually_exclusive": flags}
+    ctx.case(inp, nontrivial=n >= 2, tags=["solver-level", "mode:install-views", f"solvers:{n}"])
+    if drv is not None:
+        m = drv.ask({"op": "install.views", "cfgs": [{"mutually_exclusive": f, "executor": "threadPool"} for f in flags]})
+        ctx.compare("install.views: wrapper chain of every solver constructed on one configured estimator", inp, views, m.get("views"))
+
+
 def run_solver_level(ctx, prop):
     rng = ctx.rng
     wrapper_table_case(ctx, prop)
+    for _ in range(ctx.n(4, 30)):
+        install_views_case(ctx, prop, rng)
     modes = ["second-solver-on-shared-estimator", "single", "same-solver-twice"]
     for i in range(ctx.n(2, 12)):
         if ctx.out_of_time():
